@@ -28,6 +28,9 @@ _SOURCE = [
     "V.C12.success_complete",
     "V.C12.fetch_minimal",
     "V.C12.stores_fetched",
+    "V.C12.stores_only_fetched",
+    "V.C12.stores_only_fetched_spec",
+    "V.C12.stores_nothing_without_answers",
     "V.C12.checkKeys_spec",
     "V.C12.publicKey_valid",
     "V.C12.publicKey_spec",
@@ -49,7 +52,9 @@ CONFIG = {
     "rule": "batches of 0-4 requests (3 servers, duplicate (server,key) across requests, 1-3 key IDs per message, unsupported algorithms, "
             "unsigned / malformed messages, good / foreign / random / short / non-string signatures made with real ed25519 + SignJSON) x "
             "database script (error, empty, full, partial, mixed: good / wrong key / wrong length / expired / stale / fresh / no validity, "
-            "unrequested extras) x 0-3 fetcher scripts (same menu) x store failure x request timestamps on every boundary of the key's "
+            "unrequested extras) x 0-3 fetcher scripts (same menu) x store failure (the specification stream judges what StoreKeys is "
+            "called with in both directions: every requested entry a consulted fetcher answered is in it, and every entry in it is an entry "
+            "of a consulted fetcher's answer — an entry only READ from the database must not be written back) x request timestamps on every boundary of the key's "
             "validity profile (expired_ts-1/=/+1, valid_until_ts-1/=/+1 exact; now and now+7d with 10 min margins) x strict/lenient; "
             "request timestamps and valid_until_ts at 2^63-1 / 2^63 / 2^64-1 (spec.Timestamp is unsigned); "
             "plus WasValidAt boundaries (the same huge values for at_ts / valid_until_ts / expired_ts), CheckKeys / PublicKey on crafted key "
@@ -81,5 +86,8 @@ CONFIG = {
         "the requested time but is past its valid_until_ts NOW is re-requested, and a fetcher's different answer replaces it, so the "
         "request fails although 'the database supplies such a key' read literally (Lean: V.C12.stale_db_key_replaced; real code: corpus "
         "case 4 of corpus/C12/keyring.ops; the spec stream answers unspecified:excluded:stale-database-key-replaced-by-fetched-key there)",
+        "'stores what it fetched' is read as: StoreKeys receives exactly the entries taken over from fetchers' answers (stores_fetched + "
+        "stores_only_fetched), possibly none (the call is still made with an empty map); until /repo 3755557 it received every key the "
+        "call held, database entries included (second audit round, defect V1; the concurrent consequence is C19's conc.verify2)",
     ],
 }
